@@ -1,4 +1,4 @@
-// POSITIVE EXAMPLE (deliberately broken copy): R04a (unmatched broadcast), R04b (rank-dependent return), R04c (floor stride), R04d (address order) must fire
+// POSITIVE EXAMPLE (deliberately broken copy): R04a (unmatched broadcast), R04b (rank-dependent return), R04c (floor stride), R04d (address order), R04h (prefix state in a slice) must fire
 #ifndef PARMCB_MPI_SVA_SIGNED_HPP_
 #define PARMCB_MPI_SVA_SIGNED_HPP_
 
@@ -107,6 +107,9 @@ namespace parmcb {
                 std::size_t iend = istart + stride;
                 for (std::size_t i = istart; i < iend && i < total; i++) {
                     local_signed_edges_as_vector.push_back(signed_edges_as_vector[i]);
+                    // R04h positive: prefix-dependent state inside the rank slice
+                    hidden_edges_per_edge.insert(std::make_pair(signed_edges_as_vector[i], tmp_signed_edges));
+                    tmp_signed_edges.erase(signed_edges_as_vector[i]);
                 }
 
                 std::tuple<std::set<Edge>, WeightType, bool> best_local_cycle = tbb::parallel_reduce(
